@@ -28,6 +28,12 @@ func init() {
 					Type: "string",
 					Text: "Sub string to check for.",
 				},
+				{Name: "&key"},
+				{
+					Name: "ignore-case",
+					Type: "boolean",
+					Text: "If true the case of the characters is ignored.",
+				},
 			},
 			Return: "boolean",
 			Text:   `__containsp__ returns true if _string_ contains _substr_ and _nil_ otherwise.`,
